@@ -51,6 +51,30 @@ def _oracle_tz(case) -> Info:
     return Info(nontrivial=distinct and big, classes=tuple(classes), sample={"layout": layout, "body": body.hex()[:120]})
 
 
+def interleave_oracle(case) -> Info:
+    """Two decodes of different lists on two threads, the first paused at its k-th line inside han/ while the second runs to
+    completion (the harness owns the schedule): both results must be what each list says."""
+    from vlib import interleave
+
+    m_a, m_b, frac = case
+    _build = lambda m: C.kaifa_body(m[0], [tuple(i) for i in m[1]])
+    body_a, exp_a = _build(m_a)
+    body_b, exp_b = _build(m_b)
+    total = interleave.count_han_lines(lambda: kaifa.decode_notification_body(body_a))
+    k = max(1, int(total * frac / 1000))
+    res_a, res_b, reached = interleave.run_interleaved(lambda: kaifa.decode_notification_body(body_a), lambda: kaifa.decode_notification_body(body_b), k)
+    for who, res, exp_, body_ in (("paused", res_a, exp_a, body_a), ("interleaving", res_b, exp_b, body_b)):
+        if isinstance(res, BaseException):
+            fail(f"{who} decode raised {type(res).__name__}: {res} (other decode ran while the first was paused at han line event {k} of {total})", sig="interleaved-raise")
+        mm = C.dict_mismatch(res, exp_)
+        if mm:
+            fail(f"{who} decode, other decode run while the first was paused at han line event {k} of {total}: {mm}; body {body_.hex()[:200]}", sig="interleaved-threads")
+    return Info(nontrivial=reached, classes=("paused-mid-decode" if reached else "finished-before-pause",))
+
+
+interleave_st = st.tuples(C.kaifa_list_st(), C.kaifa_list_st(), st.integers(1, 999))
+
+
 def build() -> Check:
     return Check(
         pid="C08",
@@ -69,5 +93,5 @@ def build() -> Check:
             "Identification strings are printable ASCII (1..24 chars): a 12-octet string of control characters can legitimately parse as a date-time in that position.",
             "Positional layouts always carry an APDU date-time (as every capture does); the OBIS-tagged layout always carries its clock element.",
         ],
-        clauses=[HypClause("lists", st.tuples(C.kaifa_list_st(), st.sampled_from(PRELUDES)).map(lambda t: tuple(t[0]) + (t[1],)), oracle, quick=6000, thorough=300000)],
+        clauses=[HypClause("thread-interleavings", interleave_st, interleave_oracle, quick=250, thorough=6000, doc="decode A paused at a drawn line inside han/ while decode B runs on another thread"), HypClause("lists", st.tuples(C.kaifa_list_st(), st.sampled_from(PRELUDES)).map(lambda t: tuple(t[0]) + (t[1],)), oracle, quick=6000, thorough=300000)],
     )
